@@ -169,6 +169,11 @@ fn one_run(log: &mut EvLog, seed: u64, scanner: bool, thorough: bool) {
                         }
                         let reply = if r.reqtype == 9 {
                             Some(enc_data(r.sa, r.da, None, None, pop[a].state << 4, &[]))
+                        } else if r.dsap == Some(60) && lossy && pop[a].ident.is_some() && rng.gen_bool(0.08) {
+                            // a DP peripheral that answers this one request with something that is no usable
+                            // diagnostics reply (short confirmation / diagnostics PDU shorter than 6 bytes)
+                            log.push(json!({"ev":"Env","k":"BadReply","addr":a,"t":end}));
+                            if rng.gen_bool(0.5) { Some(vec![0xE5]) } else { Some(enc_data(r.sa, r.da, Some(62), Some(60), 0x08, &[0x02, 0x05, 0x00])) }
                         } else if r.dsap == Some(60) {
                             match pop[a].ident {
                                 Some(id) => Some(enc_data(r.sa, r.da, Some(62), Some(60), 0x08, &[0x02, 0x05, 0x00, 0xFF, (id >> 8) as u8, id as u8])),
